@@ -26,6 +26,11 @@
 # blanks and tabs, value words (' @B@', ' ${B}', ' @U@', ' B', ' x'), line endings and filler x the 100 data sets x {cmake, cmake@}.
 # Which white space the output keeps is not specified (CMake keeps it in '#  define VAR' and drops it in '/* #undef VAR */'), so lines
 # whose directive is not in the documented spelling are compared as (define | undef, NAME, VALUE) + line ending.
+# Family "value names" (meson format): values that mention names - bound (B), unbound (U, V), their own key - around '#mesondefine A/B' directives and
+# plain uses of the same names in every order: every sequence of <= 4 (quick) / <= 5 (thorough) fragments of an 11-fragment alphabet x 45 data sets.
+# The report of undefined names depends on the template's placeholder positions and the keys of the data only (reference + marker differential).
+# A word that merely begins with a directive keyword ('#mesondefined A', '#cmakedefined A', '#cmakedefine01x A') is ordinary text (CMake agrees).
+# Non-termination is judged by CPU time of the call (ITIMER_VIRTUAL), re-tried with a larger allowance and confirmed alone in the parent process.
 import io, itertools, json, os, re, shutil, signal, string, sys, time
 from verif.core import Check, pmap, run_main, scratch_root
 
